@@ -382,7 +382,7 @@ structure Hamt where
   shard : Trie := .nil
   width : Nat := 256                   -- tableSize of the shard (fixed when the shard is made)
   chg : Int := 0                       -- sizeChange
-  total : Int := 0                     -- totalLinks
+  total : Int := 0                     -- totalLinks (-1 = totalLinksUnknown: loaded from a node, not counted yet)
   s : Settings := {}
 deriving Repr
 
@@ -427,14 +427,17 @@ def addChild (hd : Hamt) (name : Name) (l : Lnk) : Hamt × OpRes :=
     let chg := match old with
       | some o => hd.chg - hd.storedLinkSize name o
       | none => hd.chg
-    ({ hd with shard := t, chg := chg + (nameLen name + l.clen : Nat), total := if old.isNone then hd.total + 1 else hd.total }, .ok)
+    ({ hd with shard := t, chg := chg + (nameLen name + l.clen : Nat),
+               total := if old.isNone ∧ hd.total ≠ (-1 : Int) then hd.total + 1 else hd.total }, .ok)
   | (t, .notfound) => ({ hd with shard := t }, .notfound)
   | (t, .toodeep) => ({ hd with shard := t }, .toodeep)
 
 /-- `HAMTDirectory.RemoveChild` -/
 def removeChild (hd : Hamt) (name : Name) : Hamt × OpRes :=
   match hd.swapTop h name none with
-  | (t, .ok (some o)) => ({ hd with shard := t, chg := hd.chg - hd.storedLinkSize name o, total := hd.total - 1 }, .ok)
+  | (t, .ok (some o)) =>
+    ({ hd with shard := t, chg := hd.chg - hd.storedLinkSize name o,
+               total := if hd.total ≠ (-1 : Int) then hd.total - 1 else hd.total }, .ok)
   | (t, .ok none) => ({ hd with shard := t }, .ok)
   | (t, .notfound) => ({ hd with shard := t }, .notfound)
   | (t, .toodeep) => ({ hd with shard := t }, .toodeep)
@@ -462,28 +465,40 @@ inductive Gate where
   | no | yes | toodeep
 deriving DecidableEq, Repr
 
-/-- `needsToSwitchToBasicDir(name, nodeToAdd)`; also returns the shard after the `Find` it performs -/
+/-- `countLinks` as `needsToSwitchToBasicDir` uses it: a directory loaded from a node (`total = -1`,
+totalLinksUnknown) learns its entry count the first time a link limit needs it -/
+def countLinks (hd : Hamt) : Hamt :=
+  if hd.s.maxLinks > 0 ∧ hd.total = (-1 : Int) then { hd with total := (hd.shard.ents.length : Nat) } else hd
+
+/-- the decision of `needsToSwitchToBasicDir` once the old entry (if any) has been looked up -/
+def gateAfterFind (g : Globals) (hd : Hamt) (name : Name) (add : Option Lnk) (old : Option SLnk) : Gate :=
+  let newTotal := hd.total + (if add.isSome then 1 else 0) - (if old.isSome then 1 else 0)
+  let canMax := !(hd.s.maxLinks > 0 ∧ newTotal > hd.s.maxLinks)
+  if hd.s.effMode g = 2 then
+    (if canMax ∧ hd.s.maxLinks > 0 ∧ newTotal ≤ hd.s.maxLinks then .yes else .no)
+  else
+    let op : Int := (match old with
+        | some o => - hd.linkSizeFor g (storedLen hd.width name o.pfx) o.lnk
+        | none => 0)
+      + (match add with
+        | some l => hd.linkSizeFor g (nameLen name) l   -- link.Name = name (fix 5d220de)
+        | none => 0)
+    let canSize := if hd.chg + op < 0 then hd.sizeBelow g op else false
+    if canSize ∧ canMax then .yes else .no
+
+/-- `needsToSwitchToBasicDir(name, nodeToAdd)`; also returns the directory after the `Find` (loading)
+and the lazy entry count it performs -/
 def needsBasic (g : Globals) (hd : Hamt) (name : Name) (add : Option Lnk) : Hamt × Gate :=
   if hd.s.effThr g = 0 then (hd, .no)
   else
     match hd.findTop h name with
     | (t, .toodeep) => ({ hd with shard := t }, .toodeep)
-    | (t, fr) =>
-      let hd := { hd with shard := t }
-      let old : Option SLnk := match fr with | .found s => some s | _ => none
-      let newTotal := hd.total + (if add.isSome then 1 else 0) - (if old.isSome then 1 else 0)
-      let canMax := !(hd.s.maxLinks > 0 ∧ newTotal > hd.s.maxLinks)
-      if hd.s.effMode g = 2 then
-        (hd, if canMax ∧ hd.s.maxLinks > 0 ∧ newTotal ≤ hd.s.maxLinks then .yes else .no)
-      else
-        let op : Int := (match old with
-            | some o => - hd.linkSizeFor g (storedLen hd.width name o.pfx) o.lnk
-            | none => 0)
-          + (match add with
-            | some l => hd.linkSizeFor g (nameLen name) l   -- link.Name = name (fix 5d220de)
-            | none => 0)
-        let canSize := if hd.chg + op < 0 then hd.sizeBelow g op else false
-        (hd, if canSize ∧ canMax then .yes else .no)
+    | (t, .found s) =>
+      let hd1 := countLinks { hd with shard := t }
+      (hd1, gateAfterFind g hd1 name add (some s))
+    | (t, .notfound) =>
+      let hd1 := countLinks { hd with shard := t }
+      (hd1, gateAfterFind g hd1 name add none)
 
 end Hamt
 
@@ -673,7 +688,7 @@ def reload (st : State) : State :=
   | .hamt hd =>
     let ns : Stat := { mode := reloadMode hd.s.stat.mode, mtime := hd.s.stat.mtime }
     let s' : Settings := { stat := ({} : Stat).set ns.mode ns.mtime, builder := if hd.s.builder = "nil" then "v0" else hd.s.builder }
-    { dyn := true, dir := .hamt { shard := Trie.ofDag hd.shard.toDag, width := hd.width, chg := 0, total := hd.shard.length, s := s' } }
+    { dyn := true, dir := .hamt { shard := Trie.ofDag hd.shard.toDag, width := hd.width, chg := 0, total := -1, s := s' } }
 
 end
 
